@@ -359,6 +359,7 @@ fn mmio_case(d: Drv, offered: u64, version: u32, fail: usize, id: String, prop: 
             }
             if prop == "C08" {
                 oracle_handshake(&mut c, &toks, offered, !legacy);
+                crate::c08_init::oracle_features(&mut c, d, &toks);
                 oracle_flags(&mut c, &toks);
             }
             watch(true);
